@@ -339,8 +339,7 @@ class IsolationOracle(Oracle):
             kparts = key.split("/")
             if op["k"] != "reattach" and kparts[0] in rawgeoh5.KINDS and (h, kparts[1]) in self.deferred_links and all(x.startswith("children:") for x in subs):
                 # the child link dropped by an earlier detach-and-attach-again is restored by whichever later save walks that
-                # parent (a move of an ancestor, the close)
-                self.deferred_links.discard((h, kparts[1]))
+                # parent (a move of an ancestor, the close); the entry stays until the next close
                 continue
             verdict = self.allowed(key, subs, touch, parents, created, removed, zombie, used_types, touched_types, concat_groups, model, root_new, type_intro)
             if not verdict:
